@@ -76,6 +76,20 @@ Definition chk_parse (c : parse_case) : bool :=
   let '(t, ma, line, cs, e) := c in
   outcome_matches (parse_command (table_oracle t) (mk_config ma CHECK_DEPTH) line cs) e.
 
+(* every byte value 0..255 between a prefix and a suffix, no oracle needed:
+   (prefix, suffix, the 256 observed outcomes in order) *)
+Definition empty_table : otable := mk_table [] [] [].
+Fixpoint sweep_ok (pre post : bytes) (c : N) (es : list eout) : bool :=
+  match es with
+  | [] => true
+  | e :: r =>
+    outcome_matches (parse_command (table_oracle empty_table) (mk_config None CHECK_DEPTH)
+                                   (pre ++ c :: post) []) e
+    && sweep_ok pre post (c + 1) r
+  end.
+Definition chk_sweep (c : bytes * bytes * list eout) : bool :=
+  let '(pre, post, es) := c in (length es =? 256)%nat && sweep_ok pre post 0 es.
+
 (* modutf7_decode raises or not *)
 Definition chk_utf7 (c : bytes * bool) : bool := Bool.eqb (modutf7_ok (fst c)) (snd c).
 
